@@ -307,6 +307,8 @@ def mutate_databook(at, Fw, D, m):
                     ws.cell(rr, cc).value = None
         elif m == "databook_unit_mismatch":
             ws.cell(r0 + 1, c0 + 2).value = "Number (per year)"
+        elif m == "databook_unit_timescale_mismatch":
+            ws.cell(r0 + 1, c0 + 2).value = "Rate (per day)"  # the right kind of unit with another timescale than the framework's (per year)
         elif m == "databook_blank_required_values":
             for rr in (r0 + 1, r0 + 2):
                 for cc in range(c0 + 4, ws.max_column + 1):
